@@ -75,6 +75,10 @@ func runDC(id int, l *latticeSolid3, cfg dcCfg) dcRecord {
 		if cfg.bufRows > 0 {
 			dc.BufferSize = cfg.bufRows * (l.n[0] + 2) * (l.n[1] + 2)
 		}
+		// which diagonal splits a quad is a matter of taste (three documented modes): either way the two triangles
+		// make up the quad of the four cubes around the edge
+		dc.TriangleMode = []model3d.DualContouringTriangleMode{model3d.DualContouringTriangleModeMaxMinArea,
+			model3d.DualContouringTriangleModeSharpest, model3d.DualContouringTriangleModeFlattest}[id%3]
 		var m *model3d.Mesh
 		var pts []model3d.Coord3D
 		if cfg.shortcut && cfg.interior {
